@@ -162,6 +162,7 @@ func runC09(c *kit.Ctx) {
 
 	// ---- R3 ---------------------------------------------------------------
 	c.StartRule("R3", "mark-unavailable / establisher pairing", 8)
+	publishedRegionGetsItsEstablisher(c)
 	muName, maName := hrpcRI+"MarkUnavailable", hrpcRI+"MarkAvailable"
 	estNames := []string{kit.M("", "*client", "reestablishRegion"), kit.M("", "*client", "establishRegion")}
 	ignoredOK := map[string]string{
@@ -256,30 +257,7 @@ func runC09(c *kit.Ctx) {
 	probeClassifiesOutcome(c)
 	lookupErrorsAreTheKnownOnes(c)
 	failedAttemptRelooksUp(c)
-	// the channel waited on is the very value that was tested non-nil
-	kit.Instrs(gr, func(in ssa.Instruction) {
-		sel, ok := in.(*ssa.Select)
-		if !ok || !sel.Blocking {
-			return
-		}
-		for _, st := range sel.States {
-			if st.Dir != types.RecvOnly || !strings.HasSuffix(st.Chan.Type().String(), "chan struct{}") {
-				continue
-			}
-			src := kit.Root(st.Chan)
-			call, isCall := src.(*ssa.Call)
-			if !isCall || kit.CalleeName(call) != hrpcRI+"AvailabilityChan" {
-				continue
-			}
-			tested := false
-			for _, f := range kit.FactsAt(sel.Block()) {
-				if cmp, ok := kit.CanonCmp(f.Cond, f.Pol); ok && cmp.Op == token.NEQ && kit.IsNilConst(cmp.Y) && kit.Root(cmp.X) == src {
-					tested = true
-				}
-			}
-			c.Check(tested, gr, "wait-on-tested-channel", sel.Pos(), "waits on the availability channel value that was just tested non-nil (one read)", "the availability channel is read again for the wait: if the region becomes available between the test and the wait the request blocks on a nil channel although the region is healthy")
-		}
-	})
+	waitOnTestedChannel(c, gr)
 	kit.Instrs(gr, func(in ssa.Instruction) {
 		sel, ok := in.(*ssa.Select)
 		if !ok || !sel.Blocking {
@@ -388,6 +366,9 @@ func runC09(c *kit.Ctx) {
 
 	// ---- R5 ---------------------------------------------------------------
 	embed(c, "R7", "no request is stranded by a failing connection (the rules of C03, run as one rule here)", 30, runC03)
+	if !c.Frozen {
+		embed(c, "R8", "a region that leaves the cache is marked dead - and only such a region - so that nobody keeps waiting for, or re-establishing, a region that cannot come back (the rules of C08, run as one rule here)", 10, runC08)
+	}
 
 	c.StartRule("R5", "region/cache primitives", 4)
 	failureTransition(c)
